@@ -80,6 +80,11 @@ pub fn judge(text: &str, ops: &OpSet, stage: &str, out: &mut WorkerOut) -> bool 
                 for n in ["in", "not", "AND", "OR", "beginWith", "endWith", "wop", "x", "a", "true", "e", "E", "_"] {
                     ctx.set_variable(n, expression_engine::Value::from(7));
                 }
+                // ... and the whole text, and each of its words, as a name
+                ctx.set_variable(text, expression_engine::Value::from(7));
+                for w in text.split_whitespace() {
+                    ctx.set_variable(w, expression_engine::Value::from(7));
+                }
                 out.evals += 1;
                 match engine::execute(text, ctx) {
                     Res::Ok(v) => out.fail(
@@ -265,7 +270,7 @@ impl Prop for C05 {
                 "a postfix operator may follow a prefix expression once (`- a ++ ++`), as in the engine's grammar; no property sentence defines it".into(),
             ],
             exhaustive: true,
-            bound: format!("<= {} tokens over {} spellings; <= {} over the 15-spelling sub-alphabet; <= {} fragments; edit distance 1", tier.pick(5, 6), TOKENS.len(), tier.pick(6, 7), tier.pick(4, 5)),
+            bound: format!("<= {} tokens over {} spellings; <= {} over the 16-spelling sub-alphabet; <= {} fragments; edit distance 1", tier.pick(5, 6), TOKENS.len(), tier.pick(6, 7), tier.pick(4, 5)),
             states_note: "states = inputs enumerated (nodes of the token / fragment trees + corrupted programs); transitions = one-token extensions or single edits".into(),
         }
     }
